@@ -9,6 +9,7 @@ CONSTANTS
   RxDeltas = {0, 3}
   Delays = {0, 2, 5}
   CtrlDelays = {5}
+  IndexMode = "pos"
   Record = TRUE
 INVARIANTS EmitScn
 CHECK_DEADLOCK FALSE
